@@ -76,6 +76,10 @@ class PTok(Val):
         return f"PTok({self.what})"
 
 
+# FIELD_HAS("default" | "default_factory", field name): the dataclass field declares one (is not dataclasses.MISSING)
+FIELD_HAS = z3.Function("FIELD_HAS", z3.StringSort(), z3.StringSort(), z3.BoolSort())
+
+
 def tname(x):
     """Dotted name of a class object as the executor represents it."""
     if isinstance(x, VType):
@@ -552,7 +556,90 @@ class SerExecutor(ETreeMixin, Executor):
     def call_builtin(self, st, name, args, kwargs, node):
         if name == "type":
             return self.b_type(st, args, kwargs, node)
+        if name == "map" and len(args) == 2 and not kwargs and isinstance(args[0], VFunc):
+            # map(f, xs) consumed eagerly (as generator expressions are): the calls happen in order, one per element
+            items = self.concrete_items(st, args[1])
+            if items is not None:
+                acc = [(st, [])]
+                for it in items:
+                    acc = [(s2, vals + [v]) for (s, vals) in acc for (s2, v) in self.call(s, args[0], [it], {}, node)]
+                return [(s, VTuple(vals)) for (s, vals) in acc]
+            if isinstance(args[1], VSeq):
+                r = self._map_over_seq(st, args[0], args[1], node)
+                if r is not None:
+                    return r
         return super().call_builtin(st, name, args, kwargs, node)
+
+    def _map_over_seq(self, st, f, seq, node):
+        """map(f, <index-based sequence>): the index-wise image (same reading as a comprehension over the sequence)."""
+        ex = self
+        frames0 = [fr.copy() for fr in st.frames]
+
+        def elem_at(i, record=False):
+            body = st.fork()
+            body.frames = [fr.copy() for fr in frames0]
+            if not record:
+                ex.sinks.append([])
+            try:
+                res = ex.call(body, f, [seq.elem(i)], {}, node)
+            finally:
+                if not record:
+                    ex.sinks.pop()
+            if len(res) != 1:
+                ex.unsupported(node, "mapped function forks")
+            if record:
+                for fact in res[0][0].pc[len(st.pc):]:
+                    st.assume(z3.Implies(z3.And(i >= 0, i < seq.length), fact))
+            return res[0][1]
+
+        elem_at(z3.Int(fresh_name("mi")), record=True)
+        return [(st, VSeq(seq.length, elem_at, "map"))]
+
+    def call(self, st, f, args, kwargs, node):
+        # functools.partial(g, *a, **k): a callable that remembers g and the leading / keyword arguments; calling it is calling g
+        # with the remembered arguments first and the call's keywords overriding the remembered ones (documented behaviour)
+        if isinstance(f, VFunc) and f.how == "ext" and f.a == "functools.partial" and args and isinstance(args[0], (VFunc, VType)) \
+                and "functools.partial" not in self.reg.ext_models:
+            return [(st, VFunc("partial", args[0], (tuple(args[1:]), dict(kwargs))))]
+        if isinstance(f, VFunc) and f.how == "partial":
+            pre_args, pre_kw = f.b
+            return self.call(st, f.a, list(pre_args) + list(args), {**pre_kw, **kwargs}, node)
+        if isinstance(f, VFunc) and f.how == "repo" and not self.abstract and self.cur_fn_stack and self.reg.get(f"{f.a}::{f.b}") is None \
+                and (self.inline_calls or self.local_helper(f)):
+            # a helper without contract is executed in place.  When IT is outside the modelled subset, the function under contract is
+            # not: the call becomes an unknown call (returns anything, may raise, path tagged -- a VC refuted there is `unknown` and
+            # goes to the replayer) instead of taking the whole function out of the subset.
+            snap = self._snapshot()
+            try:
+                return super().call(st.fork(), f, args, kwargs, node)
+            except Unsupported as e:
+                self._restore(snap)
+                self.abstracted.append(f"{self.loc(node)} helper {f.b} outside the subset ({str(e)[:80]}): unknown call")
+                return self.havoc_call(st, f"repo:{f.b} (helper outside the modelled subset)", args, node)
+        return super().call(st, f, args, kwargs, node)
+
+    def _snapshot(self):
+        return ({k: len(o.vcs) for k, o in self.obls.items()}, [len(x) for x in self.sinks], len(self.exc_any_sites), set(self.assumed_used),
+                self.paths, len(self.cur_fn_stack), len(self.loop_ord_stack), self.inline_depth, len(self.abstracted))
+
+    def _restore(self, snap):
+        vcs, sinks, n_exc, assumed, paths, n_fn, n_loop, depth, n_abs = snap
+        for k in list(self.obls):
+            if k not in vcs:
+                del self.obls[k]
+            else:
+                del self.obls[k].vcs[vcs[k]:]
+        del self.sinks[len(sinks):]
+        for lst, n_ in zip(self.sinks, sinks):
+            del lst[n_:]
+        del self.exc_any_sites[n_exc:]
+        self.assumed_used.clear()
+        self.assumed_used.update(assumed)
+        self.paths = paths
+        del self.cur_fn_stack[n_fn:]
+        del self.loop_ord_stack[n_loop:]
+        self.inline_depth = depth
+        del self.abstracted[n_abs:]
 
     def b_len(self, st, args, kwargs, node):
         v = args[0]
@@ -625,6 +712,8 @@ class SerExecutor(ETreeMixin, Executor):
                 if short == "UnionType":
                     return H.is_H604(h)
                 return F
+        if isinstance(a, PTok) and a.what == "fielddefault" and n in ("dataclasses.MISSING", "MISSING"):
+            return z3.Not(FIELD_HAS(z3.StringVal(a.b), a.a if z3.is_expr(a.a) else z3.StringVal(str(a.a))))
         if isinstance(a, PTok) and a.what == "cls" and isinstance(b, PTok) and b.what == "cls":
             return a.a == b.a
         if isinstance(a, PTok) and a.what == "cls" and a.b is not None and n is not None:       # type(x) is <class>
@@ -695,6 +784,10 @@ class SerExecutor(ETreeMixin, Executor):
             return [] if s2 is None else [(s2, VStr(sp.norm(hname(base.t))))]
         if isinstance(base, PTok) and base.what == "field" and attr == "name":
             return [(st, PTok("fieldname", base.a, base.b))] if base.b is not None else [(st, VStr(base.a))]
+        if isinstance(base, PTok) and base.what == "field" and attr in ("default", "default_factory"):
+            # dataclasses.Field.default / .default_factory: some object or the MISSING sentinel -- a property of the declaration
+            # the model does not know (uninterpreted per field name); only comparable with MISSING by identity
+            return [(st, PTok("fielddefault", base.a, attr))]
         if isinstance(base, (PV, PH, PTok)):
             return [(st, VFunc("bound", base, attr))]
         return super().get_attr(st, base, attr, node)
@@ -1065,9 +1158,13 @@ class SerExecutor(ETreeMixin, Executor):
         if kind not in ("list", "gen"):
             self.unsupported(n, "non-list comprehension over a sequence")
         ex = self
+        # the element expression is evaluated lazily (when an element is read): by then the live state may be inside another
+        # (inlined) function whose frame hides this function's locals -- its lexical frames are those of *now*
+        frames0 = [f.copy() for f in st.frames]
 
         def elem_at(i, record=False):
             body = st.fork()
+            body.frames = [f.copy() for f in frames0]
             body.frames.append(Frame({}, len(body.frames) - 1, body.frame.fnode))
             res = []
             if not record:
